@@ -49,30 +49,47 @@ Inductive kw :=
   | KBOOLEAN | KINTEGER | KNULL | KOCTET | KSTRING | KBIT | KENUMERATED
   | KIA5String | KUTF8String | KSEQUENCE | KSET | KCHOICE | KOF
   | KOPTIONAL | KDEFAULT | KTRUE | KFALSE | KMIN | KMAX | KSIZE
-  | KUNIVERSAL | KAPPLICATION | KPRIVATE.
+  | KUNIVERSAL | KAPPLICATION | KPRIVATE | KREAL.
 
 Inductive sym :=
   | Assign (* ::= *) | LBrace | RBrace | LParen | RParen | LBrack | RBrack
-  | Comma | Dots (* ... *) | DotDot (* .. *) | Bar | Caret.
+  | Comma | Dots (* ... *) | DotDot (* .. *) | Bar | Caret | Bang (* ! *) | Dot (* . *).
 
 Inductive token :=
   | TUp (s : str)      (* typereference / modulereference *)
   | TLo (s : str)      (* identifier *)
   | TNum (z : Z)          (* number, possibly negative (one lexeme, as in asn1p_l.l) *)
   | TKw (k : kw)
-  | TSym (p : sym).
+  | TSym (p : sym)
+  | TBits (bs : list bool)   (* bstring / hstring: both are ATV_BITVECTOR after _convert_bitstring2binary *)
+  | TCstr (s : str)          (* cstring, content with "" already reduced to one quote *)
+  | TReal (neg : bool) (ip fp : str).  (* realnumber in the fixed notation printf("%f") emits: digits "." digits *)
 
 (* --------------------------------------------------------------------- AST *)
 Inductive tclass := TCUniversal | TCApplication | TCContext | TCPrivate.
 Inductive tmode := TMDefault | TMImplicit | TMExplicit.
 Record tag := mkTag { t_class : tclass; t_num : N; t_mode : tmode }.
 
-Inductive endpoint := EMin | EMax | EInt (z : Z).
+(* values (asn1p_value_t as far as asn1print_value prints something the lexer has a token for):
+   ATV_INTEGER, ATV_NULL, ATV_TRUE/FALSE, ATV_BITVECTOR, ATV_STRING, ATV_REAL, ATV_REFERENCED
+   (value reference `id` or `Module.id`).  Braced values ({ a 1, b TRUE }, OID values) are
+   ATV_UNPARSED raw text the lexer reads in a parser-controlled state: outside the model. *)
+Inductive vref := VR1 (id : str) | VR2 (m id : str).
+Inductive value :=
+  | VInt (z : Z) | VNull | VBool (b : bool)
+  | VBits (bs : list bool) | VStr (s : str)
+  | VReal (neg : bool) (ip fp : str)
+  | VRef (r : vref).
+(* `SignedNumber | DefinedValue`: named numbers, ENUMERATED values, exception spec *)
+Inductive nval := NInt (z : Z) | NRef (r : vref).
+
+Inductive endpoint := EMin | EMax | EVal (v : value).
 
 (* asn1p_constraint_t: ACT_EL_VALUE, ACT_EL_RANGE, ACT_EL_EXT, ACT_CT_SIZE,
    ACT_CA_UNI, ACT_CA_INT, ACT_CA_CSV, ACT_CA_SET *)
 Inductive constr :=
-  | CVal (z : Z)
+  | CVal (v : value)
+  | CType (m : option str) (t : str)     (* ACT_EL_TYPE: contained subtype by reference, `(INCLUDES T)` / `(T)` / `(M.T)` *)
   | CRange (lo hi : endpoint)
   | CExt
   | CSize (c : constr)
@@ -81,15 +98,14 @@ Inductive constr :=
   | CCsv (cs : list constr)
   | CSet (cs : list constr).
 
-Inductive dflt := DInt (z : Z) | DBool (b : bool).
-Inductive marker := MNone | MOptional | MDefault (d : dflt).
+Inductive marker := MNone | MOptional | MDefault (d : value).
 
-Inductive eitem := EItem (id : str) (v : option Z) | EExt.
+Inductive eitem := EItem (id : str) (v : option nval) | EExt.
 
 Inductive prim :=
-  | PBoolean | PNull | PInteger (nn : list (str * Z)) | POctetString
-  | PBitString (nn : list (str * Z)) | PEnumerated (items : list eitem)
-  | PIA5String | PUTF8String | PRef (name : str).
+  | PBoolean | PNull | PInteger (nn : list (str * nval)) | POctetString
+  | PBitString (nn : list (str * nval)) | PEnumerated (items : list eitem)
+  | PIA5String | PUTF8String | PRef (name : str) | PReal.
 
 Inductive skind := SSequence | SSet | SChoice.
 Inductive okind := OSequence | OSet.
@@ -100,13 +116,16 @@ Inductive texpr :=
   | TOf (tg : option tag) (k : okind) (c : option constr) (e : texpr)
 with member :=
   | MComp (id : str) (t : texpr) (mk : marker)
-  | MExt.
+  | MExt (x : option nval).       (* `...` or `...!exception` *)
 
 Inductive tagdefault := TDNone | TDExplicit | TDImplicit | TDAutomatic.
 
+(* type assignment `T ::= type`, value assignment `v type ::= value` *)
+Inductive assign := ATyp (n : str) (t : texpr) | AVal (n : str) (t : texpr) (v : value).
+
 Record module_ast := mkModule {
   m_name : str; m_tags : tagdefault; m_extimpl : bool;
-  m_assigns : list (str * texpr) }.
+  m_assigns : list assign }.
 
 (* ============================================================ token level *)
 Notation K := TKw (only parsing).
@@ -120,14 +139,35 @@ Definition pp_sep {A} (sep : token) (f : A -> list token) : list A -> list token
               | x :: l' => f x ++ sep :: go l'
               end.
 
-Definition pp_endpoint (e : endpoint) : token :=
-  match e with EMin => K KMIN | EMax => K KMAX | EInt z => TNum z end.
+Definition pp_vref (r : vref) : list token :=
+  match r with VR1 id => [TLo id] | VR2 m id => [TUp m; Y Dot; TLo id] end.
+
+(* asn1print_value *)
+Definition pp_value (v : value) : list token :=
+  match v with
+  | VInt z => [TNum z]
+  | VNull => [K KNULL]
+  | VBool true => [K KTRUE]
+  | VBool false => [K KFALSE]
+  | VBits bs => [TBits bs]
+  | VStr s => [TCstr s]
+  | VReal n i f => [TReal n i f]
+  | VRef r => pp_vref r
+  end.
+
+Definition pp_nval (v : nval) : list token :=
+  match v with NInt z => [TNum z] | NRef r => pp_vref r end.
+
+Definition pp_endpoint (e : endpoint) : list token :=
+  match e with EMin => [K KMIN] | EMax => [K KMAX] | EVal v => pp_value v end.
 
 (* asn1print_constraint *)
 Fixpoint pp_constr (c : constr) : list token :=
   match c with
-  | CVal z => [TNum z]
-  | CRange lo hi => [pp_endpoint lo; Y DotDot; pp_endpoint hi]
+  | CVal v => pp_value v
+  | CType None t => [TUp t]
+  | CType (Some m) t => [TUp m; Y Dot; TUp t]
+  | CRange lo hi => pp_endpoint lo ++ Y DotDot :: pp_endpoint hi
   | CExt => [Y Dots]
   | CSize c' => K KSIZE :: pp_constr c'
   | CUni cs => pp_sep (Y Bar) pp_constr cs
@@ -151,16 +191,16 @@ Definition pp_tag (t : tag) : list token :=
 Definition pp_tagopt (t : option tag) : list token :=
   match t with None => [] | Some t => pp_tag t end.
 
-Definition pp_nn (x : str * Z) : list token :=
-  [TLo (fst x); Y LParen; TNum (snd x); Y RParen].
+Definition pp_nn (x : str * nval) : list token :=
+  TLo (fst x) :: Y LParen :: pp_nval (snd x) ++ [Y RParen].
 
-Definition pp_nnlist (nn : list (str * Z)) : list token :=
+Definition pp_nnlist (nn : list (str * nval)) : list token :=
   match nn with [] => [] | _ => Y LBrace :: pp_sep (Y Comma) pp_nn nn ++ [Y RBrace] end.
 
 Definition pp_eitem (e : eitem) : list token :=
   match e with
   | EItem id None => [TLo id]
-  | EItem id (Some v) => [TLo id; Y LParen; TNum v; Y RParen]
+  | EItem id (Some v) => TLo id :: Y LParen :: pp_nval v ++ [Y RParen]
   | EExt => [Y Dots]
   end.
 
@@ -175,15 +215,14 @@ Definition pp_prim (p : prim) : list token :=
   | PIA5String => [K KIA5String]
   | PUTF8String => [K KUTF8String]
   | PRef s => [TUp s]
+  | PReal => [K KREAL]
   end.
 
 Definition pp_marker (m : marker) : list token :=
   match m with
   | MNone => []
   | MOptional => [K KOPTIONAL]
-  | MDefault (DInt z) => [K KDEFAULT; TNum z]
-  | MDefault (DBool true) => [K KDEFAULT; K KTRUE]
-  | MDefault (DBool false) => [K KDEFAULT; K KFALSE]
+  | MDefault v => K KDEFAULT :: pp_value v
   end.
 
 Definition skind_kw (k : skind) : kw :=
@@ -202,11 +241,15 @@ Fixpoint pp_texpr (t : texpr) : list token :=
 with pp_member (m : member) : list token :=
   match m with
   | MComp id t mk => TLo id :: pp_texpr t ++ pp_marker mk
-  | MExt => [Y Dots]
+  | MExt None => [Y Dots]
+  | MExt (Some x) => Y Dots :: Y Bang :: pp_nval x
   end.
 
-Definition pp_assign (a : str * texpr) : list token :=
-  TUp (fst a) :: Y Assign :: pp_texpr (snd a).
+Definition pp_assign (a : assign) : list token :=
+  match a with
+  | ATyp n t => TUp n :: Y Assign :: pp_texpr t
+  | AVal n t v => TLo n :: pp_texpr t ++ Y Assign :: pp_value v
+  end.
 
 Definition pp_flags (td : tagdefault) (ei : bool) : list token :=
   (match td with
@@ -262,10 +305,46 @@ Definition mk_constraint (s : constr) : constr := if is_set s then s else CSet [
 Definition unwrap_set (s : constr) : constr :=
   match s with CSet [x] => x | _ => s end.
 
+(* DefinedValue: identifier | Module.identifier *)
+Definition p_vref (ts : list token) : option (vref * list token) :=
+  match ts with
+  | TLo id :: r => Some (VR1 id, r)
+  | TUp m :: TSym Dot :: TLo id :: r => Some (VR2 m id, r)
+  | _ => None
+  end.
+
+(* Value: SimpleValue | DefinedValue *)
+Definition p_value (ts : list token) : option (value * list token) :=
+  match ts with
+  | TNum z :: r => Some (VInt z, r)
+  | TKw KNULL :: r => Some (VNull, r)
+  | TKw KTRUE :: r => Some (VBool true, r)
+  | TKw KFALSE :: r => Some (VBool false, r)
+  | TBits bs :: r => Some (VBits bs, r)
+  | TCstr s :: r => Some (VStr s, r)
+  | TReal n i f :: r => Some (VReal n i f, r)
+  | _ => match p_vref ts with Some (x, r) => Some (VRef x, r) | None => None end
+  end.
+
+(* SignedNumber | DefinedValue *)
+Definition p_nval (ts : list token) : option (nval * list token) :=
+  match ts with
+  | TNum z :: r => Some (NInt z, r)
+  | _ => match p_vref ts with Some (x, r) => Some (NRef x, r) | None => None end
+  end.
+
 Definition p_upper (ts : list token) : option (endpoint * list token) :=
   match ts with
-  | TNum z :: r => Some (EInt z, r)
   | TKw KMAX :: r => Some (EMax, r)
+  | _ => match p_value ts with Some (v, r) => Some (EVal v, r) | None => None end
+  end.
+
+(* ContainedSubtype by reference (`INCLUDES` is not printed back): T | M.T *)
+Definition p_ctype (ts : list token) : option (constr * list token) :=
+  match ts with
+  | TUp m :: TSym Dot :: TUp t :: r => Some (CType (Some m) t, r)
+  | TUp m :: TSym Dot :: _ => None
+  | TUp t :: r => Some (CType None t, r)
   | _ => None
   end.
 
@@ -283,12 +362,19 @@ Definition p_elem (pu ps : parser constr) : parser constr := fun ts =>
       | Some (s, TSym RParen :: r') => Some (CSize (mk_constraint s), r')
       | _ => None
       end
-  | TNum z :: TSym DotDot :: r =>
-      match p_upper r with Some (hi, r') => Some (CRange (EInt z) hi, r') | None => None end
   | TKw KMIN :: TSym DotDot :: r =>
       match p_upper r with Some (hi, r') => Some (CRange EMin hi, r') | None => None end
-  | TNum z :: r => Some (CVal z, r)
-  | _ => None
+  | _ =>
+      match p_ctype ts with
+      | Some res => Some res
+      | None =>
+        match p_value ts with
+        | Some (v, TSym DotDot :: r) =>
+            match p_upper r with Some (hi, r') => Some (CRange (EVal v) hi, r') | None => None end
+        | Some (v, r) => Some (CVal v, r)
+        | None => None
+        end
+      end
   end.
 
 Definition p_ints (pu ps : parser constr) (k : nat) : parser constr := fun ts =>
@@ -397,13 +483,14 @@ Definition p_tag (ts : list token) : option (option tag * list token) :=
   end.
 
 (* ---- primitive types ---- *)
-Definition p_nn : parser (str * Z) := fun ts =>
+Definition p_nn : parser (str * nval) := fun ts =>
   match ts with
-  | TLo id :: TSym LParen :: TNum v :: TSym RParen :: r => Some ((id, v), r)
+  | TLo id :: TSym LParen :: r =>
+      match p_nval r with Some (v, TSym RParen :: r') => Some ((id, v), r') | _ => None end
   | _ => None
   end.
 
-Definition p_nnlist (k : nat) (ts : list token) : option (list (str * Z) * list token) :=
+Definition p_nnlist (k : nat) (ts : list token) : option (list (str * nval) * list token) :=
   match ts with
   | TSym LBrace :: r =>
     match p_sep1 p_nn is_comma k r with
@@ -416,7 +503,8 @@ Definition p_nnlist (k : nat) (ts : list token) : option (list (str * Z) * list 
 Definition p_eitem : parser eitem := fun ts =>
   match ts with
   | TSym Dots :: r => Some (EExt, r)
-  | TLo id :: TSym LParen :: TNum v :: TSym RParen :: r => Some (EItem id (Some v), r)
+  | TLo id :: TSym LParen :: r =>
+      match p_nval r with Some (v, TSym RParen :: r') => Some (EItem id (Some v), r') | _ => None end
   | TLo id :: r => Some (EItem id None, r)
   | _ => None
   end.
@@ -437,6 +525,7 @@ Definition p_prim (k : nat) (ts : list token) : option (prim * list token) :=
     end
   | TKw KIA5String :: r => Some (PIA5String, r)
   | TKw KUTF8String :: r => Some (PUTF8String, r)
+  | TKw KREAL :: r => Some (PReal, r)
   | TUp s :: r => Some (PRef s, r)
   | _ => None
   end.
@@ -444,13 +533,14 @@ Definition p_prim (k : nat) (ts : list token) : option (prim * list token) :=
 (* ---- members ---- *)
 Definition p_member (pt : parser texpr) : parser member := fun ts =>
   match ts with
-  | TSym Dots :: r => Some (MExt, r)
+  | TSym Dots :: TSym Bang :: r =>
+    match p_nval r with Some (x, r') => Some (MExt (Some x), r') | None => None end
+  | TSym Dots :: r => Some (MExt None, r)
   | TLo id :: r =>
     match pt r with
     | Some (t, TKw KOPTIONAL :: r') => Some (MComp id t MOptional, r')
-    | Some (t, TKw KDEFAULT :: TNum z :: r') => Some (MComp id t (MDefault (DInt z)), r')
-    | Some (t, TKw KDEFAULT :: TKw KTRUE :: r') => Some (MComp id t (MDefault (DBool true)), r')
-    | Some (t, TKw KDEFAULT :: TKw KFALSE :: r') => Some (MComp id t (MDefault (DBool false)), r')
+    | Some (t, TKw KDEFAULT :: r') =>
+        match p_value r' with Some (v, r'') => Some (MComp id t (MDefault v), r'') | None => None end
     | Some (t, r') => Some (MComp id t MNone, r')
     | None => None
     end
@@ -524,7 +614,7 @@ Fixpoint p_texpr (n : nat) (ts : list token) : option (texpr * list token) :=
   end.
 
 (* ---- module ---- *)
-Fixpoint p_assigns (n k : nat) (ts : list token) : option (list (str * texpr) * list token) :=
+Fixpoint p_assigns (n k : nat) (ts : list token) : option (list assign * list token) :=
   match k with
   | O => None
   | S k' =>
@@ -533,8 +623,18 @@ Fixpoint p_assigns (n k : nat) (ts : list token) : option (list (str * texpr) * 
     | TUp nm :: TSym Assign :: r =>
       match p_texpr n r with
       | Some (t, r') =>
-        match p_assigns n k' r' with Some (l, r'') => Some ((nm, t) :: l, r'') | None => None end
+        match p_assigns n k' r' with Some (l, r'') => Some (ATyp nm t :: l, r'') | None => None end
       | None => None
+      end
+    | TLo nm :: r =>
+      match p_texpr n r with
+      | Some (t, TSym Assign :: r') =>
+        match p_value r' with
+        | Some (v, r'') =>
+          match p_assigns n k' r'' with Some (l, r3) => Some (AVal nm t v :: l, r3) | None => None end
+        | None => None
+        end
+      | _ => None
       end
     | _ => None
     end
@@ -575,6 +675,80 @@ Definition parse (ts : list token) : option module_ast :=
   end.
 
 (* ====================================================== well-formedness *)
+(* identifiers: [a-z][A-Za-z0-9]*(-[A-Za-z0-9]+)* ; typereferences start upper-case and are
+   not reserved words (the lexer's keyword table) *)
+Definition is_lower (a : ascii) : bool := let n := nat_of_ascii a in (97 <=? n)%nat && (n <=? 122)%nat.
+Definition is_upper (a : ascii) : bool := let n := nat_of_ascii a in (65 <=? n)%nat && (n <=? 90)%nat.
+Definition is_digit (a : ascii) : bool := let n := nat_of_ascii a in (48 <=? n)%nat && (n <=? 57)%nat.
+Definition is_alnum (a : ascii) : bool := is_lower a || is_upper a || is_digit a.
+Definition is_hyphen (a : ascii) : bool := (nat_of_ascii a =? 45)%nat.
+
+(* after the first character: alphanumerics, single hyphens between them, no trailing hyphen *)
+Fixpoint wf_tail (prev_hyphen : bool) (s : str) : bool :=
+  match s with
+  | SNil => negb prev_hyphen
+  | SCons a s' =>
+      if is_alnum a then wf_tail false s'
+      else if is_hyphen a then negb prev_hyphen && wf_tail true s'
+      else false
+  end.
+
+Definition kw_table : list (str * kw) :=
+  [("DEFINITIONS", KDEFINITIONS); ("BEGIN", KBEGIN); ("END", KEND); ("EXPLICIT", KEXPLICIT);
+   ("IMPLICIT", KIMPLICIT); ("AUTOMATIC", KAUTOMATIC); ("TAGS", KTAGS);
+   ("EXTENSIBILITY", KEXTENSIBILITY); ("IMPLIED", KIMPLIED);
+   ("BOOLEAN", KBOOLEAN); ("INTEGER", KINTEGER); ("NULL", KNULL); ("OCTET", KOCTET);
+   ("STRING", KSTRING); ("BIT", KBIT); ("ENUMERATED", KENUMERATED);
+   ("IA5String", KIA5String); ("UTF8String", KUTF8String); ("SEQUENCE", KSEQUENCE);
+   ("SET", KSET); ("CHOICE", KCHOICE); ("OF", KOF); ("OPTIONAL", KOPTIONAL);
+   ("DEFAULT", KDEFAULT); ("TRUE", KTRUE); ("FALSE", KFALSE); ("MIN", KMIN); ("MAX", KMAX);
+   ("SIZE", KSIZE); ("UNIVERSAL", KUNIVERSAL); ("APPLICATION", KAPPLICATION);
+   ("PRIVATE", KPRIVATE); ("REAL", KREAL)].
+
+Fixpoint lookup_kw (tbl : list (str * kw)) (s : str) : option kw :=
+  match tbl with
+  | [] => None
+  | (n, k) :: tbl' => if str_eqb n s then Some k else lookup_kw tbl' s
+  end.
+
+Definition wf_ident (s : str) : bool :=
+  match s with
+  | SNil => false
+  | SCons a s' => is_lower a && wf_tail false s'
+  end.
+
+Definition wf_typeref (s : str) : bool :=
+  match s with
+  | SNil => false
+  | SCons a s' =>
+      is_upper a && wf_tail false s' &&
+      match lookup_kw kw_table s with None => true | Some _ => false end
+  end.
+
+(* values *)
+Fixpoint all_digits (s : str) : bool :=
+  match s with SNil => true | SCons a s' => is_digit a && all_digits s' end.
+Definition nonempty (s : str) : bool := match s with SNil => false | _ => true end.
+
+Definition wf_vref (r : vref) : bool :=
+  match r with VR1 id => wf_ident id | VR2 m id => wf_typeref m && wf_ident id end.
+
+(* what the printer can emit and the lexer has a lexeme for: a bit vector is never empty
+   ('' H is not a lexeme of asn1p_l.l), a real is digits "." six digits *)
+Definition wf_value (v : value) : bool :=
+  match v with
+  | VBits bs => match bs with [] => false | _ => true end
+  | VReal _ ip fp => nonempty ip && all_digits ip && Nat.eqb (slen fp) 6 && all_digits fp
+  | VRef r => wf_vref r
+  | _ => true
+  end.
+
+Definition wf_nval (v : nval) : bool :=
+  match v with NInt _ => true | NRef r => wf_vref r end.
+
+Definition wf_endpoint (e : endpoint) : bool :=
+  match e with EVal v => wf_value v | _ => true end.
+
 (* the shape of the trees the grammar builds (Elements < Intersections < Unions <
    ElementSetSpecs); everything is boolean *)
 Inductive lvl := LElem | LInt | LUni | LSpec.
@@ -591,9 +765,12 @@ Definition two_or_more {A} (l : list A) : bool :=
 
 Fixpoint wf_c (l : lvl) (c : constr) : bool :=
   match c with
-  | CVal _ => true
+  | CVal v => wf_value v
+  | CType None t => wf_typeref t
+  | CType (Some m) t => wf_typeref m && wf_typeref t
   | CRange lo hi =>
       match lo with EMax => false | _ => true end && match hi with EMin => false | _ => true end
+      && wf_endpoint lo && wf_endpoint hi
   | CExt => lvl_le LSpec l
   | CSize s =>
       match s with
@@ -636,59 +813,16 @@ Definition wf_ofc (c : constr) : bool :=
 Definition wf_copt (f : constr -> bool) (c : option constr) : bool :=
   match c with None => true | Some c => f c end.
 
-(* identifiers: [a-z][A-Za-z0-9]*(-[A-Za-z0-9]+)* ; typereferences start upper-case and are
-   not reserved words (the lexer's keyword table) *)
-Definition is_lower (a : ascii) : bool := let n := nat_of_ascii a in (97 <=? n)%nat && (n <=? 122)%nat.
-Definition is_upper (a : ascii) : bool := let n := nat_of_ascii a in (65 <=? n)%nat && (n <=? 90)%nat.
-Definition is_digit (a : ascii) : bool := let n := nat_of_ascii a in (48 <=? n)%nat && (n <=? 57)%nat.
-Definition is_alnum (a : ascii) : bool := is_lower a || is_upper a || is_digit a.
-Definition is_hyphen (a : ascii) : bool := (nat_of_ascii a =? 45)%nat.
-
-(* after the first character: alphanumerics, single hyphens between them, no trailing hyphen *)
-Fixpoint wf_tail (prev_hyphen : bool) (s : str) : bool :=
-  match s with
-  | SNil => negb prev_hyphen
-  | SCons a s' =>
-      if is_alnum a then wf_tail false s'
-      else if is_hyphen a then negb prev_hyphen && wf_tail true s'
-      else false
-  end.
-
-Definition kw_table : list (str * kw) :=
-  [("DEFINITIONS", KDEFINITIONS); ("BEGIN", KBEGIN); ("END", KEND); ("EXPLICIT", KEXPLICIT);
-   ("IMPLICIT", KIMPLICIT); ("AUTOMATIC", KAUTOMATIC); ("TAGS", KTAGS);
-   ("EXTENSIBILITY", KEXTENSIBILITY); ("IMPLIED", KIMPLIED);
-   ("BOOLEAN", KBOOLEAN); ("INTEGER", KINTEGER); ("NULL", KNULL); ("OCTET", KOCTET);
-   ("STRING", KSTRING); ("BIT", KBIT); ("ENUMERATED", KENUMERATED);
-   ("IA5String", KIA5String); ("UTF8String", KUTF8String); ("SEQUENCE", KSEQUENCE);
-   ("SET", KSET); ("CHOICE", KCHOICE); ("OF", KOF); ("OPTIONAL", KOPTIONAL);
-   ("DEFAULT", KDEFAULT); ("TRUE", KTRUE); ("FALSE", KFALSE); ("MIN", KMIN); ("MAX", KMAX);
-   ("SIZE", KSIZE); ("UNIVERSAL", KUNIVERSAL); ("APPLICATION", KAPPLICATION);
-   ("PRIVATE", KPRIVATE)].
-
-Fixpoint lookup_kw (tbl : list (str * kw)) (s : str) : option kw :=
-  match tbl with
-  | [] => None
-  | (n, k) :: tbl' => if str_eqb n s then Some k else lookup_kw tbl' s
-  end.
-
-Definition wf_ident (s : str) : bool :=
-  match s with
-  | SNil => false
-  | SCons a s' => is_lower a && wf_tail false s'
-  end.
-
-Definition wf_typeref (s : str) : bool :=
-  match s with
-  | SNil => false
-  | SCons a s' =>
-      is_upper a && wf_tail false s' &&
-      match lookup_kw kw_table s with None => true | Some _ => false end
-  end.
-
-Definition wf_nn (x : str * Z) : bool := wf_ident (fst x).
+Definition wf_nn (x : str * nval) : bool := wf_ident (fst x) && wf_nval (snd x).
 Definition wf_eitem (e : eitem) : bool :=
-  match e with EItem id _ => wf_ident id | EExt => true end.
+  match e with
+  | EItem id None => wf_ident id
+  | EItem id (Some v) => wf_ident id && wf_nval v
+  | EExt => true
+  end.
+
+Definition wf_marker (m : marker) : bool :=
+  match m with MDefault v => wf_value v | _ => true end.
 
 Definition wf_prim (p : prim) : bool :=
   match p with
@@ -706,13 +840,19 @@ Fixpoint wf_texpr (t : texpr) : bool :=
   end
 with wf_member (m : member) : bool :=
   match m with
-  | MComp id t _ => wf_ident id && wf_texpr t
-  | MExt => true
+  | MComp id t mk => wf_ident id && wf_texpr t && wf_marker mk
+  | MExt None => true
+  | MExt (Some x) => wf_nval x
+  end.
+
+Definition wf_assign (a : assign) : bool :=
+  match a with
+  | ATyp n t => wf_typeref n && wf_texpr t
+  | AVal n t v => wf_ident n && wf_texpr t && wf_value v
   end.
 
 Definition wf_module (m : module_ast) : bool :=
-  wf_typeref (m_name m) &&
-  forallb (fun a => wf_typeref (fst a) && wf_texpr (snd a)) (m_assigns m).
+  wf_typeref (m_name m) && forallb wf_assign (m_assigns m).
 
 (* ============================================================== byte level *)
 (* asn1p_itoa *)
@@ -744,13 +884,80 @@ Definition ppb_sep {A} (sep : str) (f : A -> str) : list A -> str :=
               | x :: l' => f x +++ sep +++ go l'
               end.
 
+(* ---- spelling of the value tokens (asn1print_value) ---- *)
+(* hextable[] = 0123456789ABCDEF: the lexer rule for an hstring admits [0-9A-F], upper case only *)
+Definition hexdigit (a b c d : bool) : ascii :=
+  match a, b, c, d with
+  | false, false, false, false => "0" | false, false, false, true => "1"
+  | false, false, true, false => "2"  | false, false, true, true => "3"
+  | false, true, false, false => "4"  | false, true, false, true => "5"
+  | false, true, true, false => "6"   | false, true, true, true => "7"
+  | true, false, false, false => "8"  | true, false, false, true => "9"
+  | true, false, true, false => "A"   | true, false, true, true => "B"
+  | true, true, false, false => "C"   | true, true, false, true => "D"
+  | true, true, true, false => "E"    | true, true, true, true => "F"
+  end%char.
+
+(* bits>>3 octets, two digits each; only used when the number of bits is a multiple of 8 *)
+Fixpoint hex_of_bits (bs : list bool) : str :=
+  match bs with
+  | a :: b :: c :: d :: r => SCons (hexdigit a b c d) (hex_of_bits r)
+  | _ => SNil
+  end.
+
+Fixpoint bin_of_bits (bs : list bool) : str :=
+  match bs with
+  | [] => SNil
+  | b :: r => SCons (if b then "1" else "0")%char (bin_of_bits r)
+  end.
+
+Definition quote1 : str := SCons "'"%char SNil.
+Definition dquote : ascii := ascii_of_nat 34.
+
+(* ATV_BITVECTOR: `if(bits%8) '0101'B else 'AF'H` *)
+Definition ppb_bits (bs : list bool) : str :=
+  if Nat.eqb (Nat.modulo (List.length bs) 8) 0
+  then quote1 +++ hex_of_bits bs +++ quote1 +++ "H"
+  else quote1 +++ bin_of_bits bs +++ quote1 +++ "B".
+
+(* ATV_STRING: every quote is doubled *)
+Fixpoint esc_quotes (s : str) : str :=
+  match s with
+  | SNil => SNil
+  | SCons a s' => if Ascii.eqb a dquote then SCons a (SCons a (esc_quotes s')) else SCons a (esc_quotes s')
+  end.
+Definition ppb_cstr (s : str) : str := SCons dquote (esc_quotes s +++ SCons dquote SNil).
+
+Definition ppb_real (neg : bool) (ip fp : str) : str :=
+  (if neg then "-" else "") +++ ip +++ "." +++ fp.
+
+Definition ppb_vref (r : vref) : str :=
+  match r with VR1 id => id | VR2 m id => m +++ "." +++ id end.
+
+Definition ppb_value (v : value) : str :=
+  match v with
+  | VInt z => dec z
+  | VNull => "NULL"
+  | VBool true => "TRUE"
+  | VBool false => "FALSE"
+  | VBits bs => ppb_bits bs
+  | VStr s => ppb_cstr s
+  | VReal n i f => ppb_real n i f
+  | VRef r => ppb_vref r
+  end.
+
+Definition ppb_nval (v : nval) : str :=
+  match v with NInt z => dec z | NRef r => ppb_vref r end.
+
 Definition ppb_endpoint (e : endpoint) : str :=
-  match e with EMin => "MIN" | EMax => "MAX" | EInt z => dec z end.
+  match e with EMin => "MIN" | EMax => "MAX" | EVal v => ppb_value v end.
 
 (* asn1print_constraint: symtable = " EXCEPT ", " ^ ", " | ", ",", "", "(" *)
 Fixpoint ppb_constr (c : constr) : str :=
   match c with
-  | CVal z => dec z
+  | CVal v => ppb_value v
+  | CType None t => " " +++ t                   (* asn1print_expr: ENSURE_SPACE before the reference *)
+  | CType (Some m) t => " " +++ m +++ "." +++ t
   | CRange lo hi => ppb_endpoint lo +++ ".." +++ ppb_endpoint hi
   | CExt => "..."
   | CSize c' => "SIZE" +++ ppb_constr c'
@@ -782,17 +989,17 @@ Definition ppb_braced {A} (level : nat) (f : A -> str) (l : list A) : str :=
   | _ => " {" +++ nl +++ ppb_sep (member_sep level) f l +++ nl +++ spaces level +++ "}"
   end.
 
-Definition ppb_nn (level : nat) (x : str * Z) : str :=
-  spaces (S level) +++ fst x +++ "(" +++ dec (snd x) +++ ")".
+Definition ppb_nn (level : nat) (x : str * nval) : str :=
+  spaces (S level) +++ fst x +++ "(" +++ ppb_nval (snd x) +++ ")".
 
 Definition ppb_eitem (level : nat) (e : eitem) : str :=
   match e with
   | EItem id None => spaces (S level) +++ id
-  | EItem id (Some v) => spaces (S level) +++ id +++ "(" +++ dec v +++ ")"
+  | EItem id (Some v) => spaces (S level) +++ id +++ "(" +++ ppb_nval v +++ ")"
   | EExt => spaces (S level) +++ "..."
   end.
 
-Definition ppb_nnlist (level : nat) (nn : list (str * Z)) : str :=
+Definition ppb_nnlist (level : nat) (nn : list (str * nval)) : str :=
   match nn with [] => "" | _ => ppb_braced level (ppb_nn level) nn end.
 
 Definition ppb_prim (level : nat) (p : prim) : str :=
@@ -806,15 +1013,14 @@ Definition ppb_prim (level : nat) (p : prim) : str :=
   | PIA5String => " IA5String"
   | PUTF8String => " UTF8String"
   | PRef s => " " +++ s
+  | PReal => " REAL"
   end.
 
 Definition ppb_marker (m : marker) : str :=
   match m with
   | MNone => ""
   | MOptional => " OPTIONAL"
-  | MDefault (DInt z) => " DEFAULT " +++ dec z
-  | MDefault (DBool true) => " DEFAULT TRUE"
-  | MDefault (DBool false) => " DEFAULT FALSE"
+  | MDefault v => " DEFAULT " +++ ppb_value v
   end.
 
 Definition ppb_copt (c : option constr) : str :=
@@ -836,11 +1042,16 @@ Fixpoint ppb_texpr (level : nat) (t : texpr) : str :=
 with ppb_member (level : nat) (m : member) : str :=
   match m with
   | MComp id t mk => spaces (S level) +++ id +++ tab +++ ppb_texpr (S level) t +++ ppb_marker mk
-  | MExt => spaces (S level) +++ "..."
+  | MExt None => spaces (S level) +++ "..."
+  | MExt (Some x) => spaces (S level) +++ "...!" +++ ppb_nval x
   end.
 
-Definition ppb_assign (a : str * texpr) : str :=
-  fst a +++ " ::=" +++ ppb_texpr 0 (snd a) +++ nl +++ nl.
+(* a value assignment: identifier, the type without `::=` before it, ` ::= `, the value *)
+Definition ppb_assign (a : assign) : str :=
+  match a with
+  | ATyp n t => n +++ " ::=" +++ ppb_texpr 0 t +++ nl +++ nl
+  | AVal n t v => n +++ ppb_texpr 0 t +++ " ::= " +++ ppb_value v +++ nl +++ nl
+  end.
 
 Definition ppb_module (m : module_ast) : str :=
   m_name m +++ " DEFINITIONS" +++
@@ -892,6 +1103,114 @@ Definition word_token (w : str) : token :=
     end
   end.
 
+(* value of a hexadecimal digit as four bits, most significant first; upper case only *)
+Definition hexval (c : ascii) : option (bool * bool * bool * bool) :=
+  match c with
+  | "0" => Some (false, false, false, false) | "1" => Some (false, false, false, true)
+  | "2" => Some (false, false, true, false)  | "3" => Some (false, false, true, true)
+  | "4" => Some (false, true, false, false)  | "5" => Some (false, true, false, true)
+  | "6" => Some (false, true, true, false)   | "7" => Some (false, true, true, true)
+  | "8" => Some (true, false, false, false)  | "9" => Some (true, false, false, true)
+  | "A" => Some (true, false, true, false)   | "B" => Some (true, false, true, true)
+  | "C" => Some (true, true, false, false)   | "D" => Some (true, true, false, true)
+  | "E" => Some (true, true, true, false)    | "F" => Some (true, true, true, true)
+  | _ => None
+  end%char.
+
+(* the characters between the quotes of '...'H / '...'B: bits so far (hexadecimal reading),
+   whether all digits were 0/1, the binary reading, and what follows the closing quote *)
+Fixpoint lex_quoted (s : str) : option (list bool * bool * list bool * str) :=
+  match s with
+  | SNil => None
+  | SCons c s' =>
+    if Ascii.eqb c "'"%char then Some ([], true, [], s')
+    else
+      match hexval c with
+      | None => None
+      | Some (b3, b2, b1, b0) =>
+        match lex_quoted s' with
+        | None => None
+        | Some (hb, isbin, bb, r) =>
+          Some (b3 :: b2 :: b1 :: b0 :: hb,
+                (negb b3 && negb b2 && negb b1) && isbin,
+                b0 :: bb, r)
+        end
+      end
+  end.
+
+(* after the opening quote: '[0-9A-F]+'H | '[01]+'B *)
+Definition lex_bits (s : str) : option (token * str) :=
+  match lex_quoted s with
+  | Some (hb, isbin, bb, SCons "H"%char r) =>
+      match hb with [] => None | _ => Some (TBits hb, r) end
+  | Some (hb, isbin, bb, SCons "B"%char r) =>
+      match bb with [] => None | _ => if isbin then Some (TBits bb, r) else None end
+  | _ => None
+  end.
+
+(* after the opening double quote: a doubled quote is one quote, a single one ends the string *)
+Fixpoint lex_cstr (s : str) : option (str * str) :=
+  match s with
+  | SNil => None
+  | SCons a s' =>
+    if Ascii.eqb a dquote then
+      match s' with
+      | SCons b s'' =>
+          if Ascii.eqb b dquote then
+            match lex_cstr s'' with Some (w, r) => Some (SCons dquote w, r) | None => None end
+          else Some (SNil, s')
+      | SNil => Some (SNil, SNil)
+      end
+    else match lex_cstr s' with Some (w, r) => Some (SCons a w, r) | None => None end
+  end.
+
+(* digits, then `.digits` makes it a realnumber (fixed notation only) *)
+Definition lex_number (neg : bool) (s : str) : option (token * str) :=
+  let (d, r) := take_digits s in
+  match d with
+  | SNil => None
+  | _ =>
+    match r with
+    | SCons "."%char (SCons b r') =>
+        if is_digit b then
+          let (f, r'') := take_digits (SCons b r') in Some (TReal neg d f, r'')
+        else Some (TNum (let z := digits_val 0 d in if neg then Z.opp z else z), r)
+    | _ => Some (TNum (let z := digits_val 0 d in if neg then Z.opp z else z), r)
+    end
+  end.
+
+(* one token at the head of [s] (no leading white space) *)
+Definition lex1 (s : str) : option (token * str) :=
+  match s with
+  | SNil => None
+  | SCons a s' =>
+      if is_lower a || is_upper a then
+        let (w, r) := take_word s in Some (word_token w, r)
+      else if is_digit a then lex_number false s
+      else
+        match a, s' with
+        | "-"%char, SCons b _ => if is_digit b then lex_number true s' else None
+        | "'"%char, _ => lex_bits s'
+        | ":"%char, SCons ":"%char (SCons "="%char r) => Some (Y Assign, r)
+        | "."%char, SCons "."%char (SCons "."%char r) => Some (Y Dots, r)
+        | "."%char, SCons "."%char r => Some (Y DotDot, r)
+        | "."%char, r => Some (Y Dot, r)
+        | "!"%char, r => Some (Y Bang, r)
+        | "{"%char, r => Some (Y LBrace, r)
+        | "}"%char, r => Some (Y RBrace, r)
+        | "("%char, r => Some (Y LParen, r)
+        | ")"%char, r => Some (Y RParen, r)
+        | "["%char, r => Some (Y LBrack, r)
+        | "]"%char, r => Some (Y RBrack, r)
+        | ","%char, r => Some (Y Comma, r)
+        | "|"%char, r => Some (Y Bar, r)
+        | "^"%char, r => Some (Y Caret, r)
+        | _, _ => if Ascii.eqb a dquote
+                  then match lex_cstr s' with Some (w, r) => Some (TCstr w, r) | None => None end
+                  else None
+        end
+  end.
+
 Fixpoint lex_go (fuel : nat) (s : str) : option (list token) :=
   match fuel with
   | O => match s with SNil => Some [] | _ => None end
@@ -899,33 +1218,11 @@ Fixpoint lex_go (fuel : nat) (s : str) : option (list token) :=
     match s with
     | SNil => Some []
     | SCons a s' =>
-      let cons t r := match lex_go fuel' r with Some l => Some (t :: l) | None => None end in
       if is_ws a then lex_go fuel' s'
-      else if is_lower a || is_upper a then
-        let (w, r) := take_word s in cons (word_token w) r
-      else if is_digit a then
-        let (d, r) := take_digits s in
-        match num_of false d with Some z => cons (TNum z) r | None => None end
       else
-        match a, s' with
-        | "-"%char, SCons b _ =>
-            if is_digit b then
-              let (d, r) := take_digits s' in
-              match num_of true d with Some z => cons (TNum z) r | None => None end
-            else None
-        | ":"%char, SCons ":"%char (SCons "="%char r) => cons (Y Assign) r
-        | "."%char, SCons "."%char (SCons "."%char r) => cons (Y Dots) r
-        | "."%char, SCons "."%char r => cons (Y DotDot) r
-        | "{"%char, r => cons (Y LBrace) r
-        | "}"%char, r => cons (Y RBrace) r
-        | "("%char, r => cons (Y LParen) r
-        | ")"%char, r => cons (Y RParen) r
-        | "["%char, r => cons (Y LBrack) r
-        | "]"%char, r => cons (Y RBrack) r
-        | ","%char, r => cons (Y Comma) r
-        | "|"%char, r => cons (Y Bar) r
-        | "^"%char, r => cons (Y Caret) r
-        | _, _ => None
+        match lex1 s with
+        | Some (t, r) => match lex_go fuel' r with Some l => Some (t :: l) | None => None end
+        | None => None
         end
     end
   end.
@@ -942,7 +1239,8 @@ Definition kw_eqb (a b : kw) : bool :=
   | KENUMERATED, KENUMERATED | KIA5String, KIA5String | KUTF8String, KUTF8String
   | KSEQUENCE, KSEQUENCE | KSET, KSET | KCHOICE, KCHOICE | KOF, KOF | KOPTIONAL, KOPTIONAL
   | KDEFAULT, KDEFAULT | KTRUE, KTRUE | KFALSE, KFALSE | KMIN, KMIN | KMAX, KMAX
-  | KSIZE, KSIZE | KUNIVERSAL, KUNIVERSAL | KAPPLICATION, KAPPLICATION | KPRIVATE, KPRIVATE => true
+  | KSIZE, KSIZE | KUNIVERSAL, KUNIVERSAL | KAPPLICATION, KAPPLICATION | KPRIVATE, KPRIVATE
+  | KREAL, KREAL => true
   | _, _ => false
   end.
 
@@ -950,7 +1248,14 @@ Definition sym_eqb (a b : sym) : bool :=
   match a, b with
   | Assign, Assign | LBrace, LBrace | RBrace, RBrace | LParen, LParen | RParen, RParen
   | LBrack, LBrack | RBrack, RBrack | Comma, Comma | Dots, Dots | DotDot, DotDot
-  | Bar, Bar | Caret, Caret => true
+  | Bar, Bar | Caret, Caret | Bang, Bang | Dot, Dot => true
+  | _, _ => false
+  end.
+
+Fixpoint bits_eqb (a b : list bool) : bool :=
+  match a, b with
+  | [], [] => true
+  | x :: a', y :: b' => Bool.eqb x y && bits_eqb a' b'
   | _, _ => false
   end.
 
@@ -960,6 +1265,9 @@ Definition token_eqb (a b : token) : bool :=
   | TNum x, TNum y => Z.eqb x y
   | TKw x, TKw y => kw_eqb x y
   | TSym x, TSym y => sym_eqb x y
+  | TBits x, TBits y => bits_eqb x y
+  | TCstr x, TCstr y => str_eqb x y
+  | TReal n i f, TReal n' i' f' => Bool.eqb n n' && str_eqb i i' && str_eqb f f'
   | _, _ => false
   end.
 
